@@ -39,6 +39,7 @@ type Check struct {
 	start    time.Time
 	Obls     []*Obligation
 	keep     func(string) bool
+	asRule   string
 	Explain  string
 	Uncov    []string
 	Configs  []string
@@ -68,9 +69,21 @@ func (c *Check) only(keep func(key string) bool, run func()) {
 	c.keep = old
 }
 
+// as runs a rule function whose rule ids are fixed and records its obligations under another id
+// (cross-listing a whole rule of another property).
+func (c *Check) as(rule string, run func()) {
+	old := c.asRule
+	c.asRule = rule
+	run()
+	c.asRule = old
+}
+
 func (c *Check) add(o *Obligation) *Obligation {
 	if c.keep != nil && !c.keep(o.Key) {
 		return o
+	}
+	if c.asRule != "" {
+		o.Rule = c.asRule
 	}
 	// de-duplicate by rule+key+config
 	for _, p := range c.Obls {
